@@ -625,6 +625,43 @@ impl R {
             Wr::Capacity => "capacity".to_string(),
             Wr::Panic => "panic".to_string(),
         };
+        // C10 at the raw level: what was written is read back, in both forms, to the same snapshot
+        let mut srt = "0";
+        if let (Wr::Ok(xs), Wr::Ok(bs)) = (&si, &raw_write_bytes(b)) {
+            let back_i = {
+                let mut r = RawSnap::empty();
+                let mut ws: Vec<Warning> = vec![];
+                catch(|| r.read_from_ints(&mut ws, xs)).map(|x| x.map(|_| (r, ws)))
+            };
+            let back_b = {
+                let mut r = RawSnap::empty();
+                let mut ws: Vec<Warning> = vec![];
+                let mut buf = vec![];
+                catch(|| r.read(&mut ws, &mut buf, bs)).map(|x| x.map(|_| (r, ws)))
+            };
+            let mut good = true;
+            for (name, back) in [("ints", &back_i), ("bytes", &back_b)] {
+                match back {
+                    Ok(Ok((r, ws))) => {
+                        if raw_items(r) != b_items || r.crc() != b_crc || !ws.is_empty() {
+                            good = false;
+                            o.fail("C10/roundtrip-differs", format!("raw snapshot read back from {} differs (or warns: {})", name, fmt_ws(ws)));
+                        }
+                    }
+                    Ok(Err(e)) => {
+                        good = false;
+                        o.fail("C10/roundtrip-rejected", format!("raw snapshot of {} items written, but reading it back from {} is refused with {:?}", b_items.len(), name, e));
+                    }
+                    Err(msg) => {
+                        good = false;
+                        o.fail("C10/roundtrip-rejected", format!("reading back from {} panics: {}", name, msg));
+                    }
+                }
+            }
+            if good {
+                srt = "1";
+            }
+        }
         let in_ref = ai.iter().all(|x| x.0 < 0x8000) && bi.iter().all(|x| x.0 < 0x8000) && agree && okb;
         let part2 = if in_ref {
             let ua = unsigned_sorted(ai);
@@ -636,7 +673,7 @@ impl R {
             self.refpool.push(rbs.recycle());
             let rd = match rd {
                 Some(x) => x,
-                None => return format!("{} si:{} sb:{} ref:toolong", part1, short(fmt_wr_ints(&si)), sb),
+                None => return format!("{} si:{} sb:{} srt:{} ref:toolong", part1, short(fmt_wr_ints(&si)), sb, srt),
             };
             if let Wr::Ok(v) = &si {
                 if *v != rs {
@@ -664,7 +701,7 @@ impl R {
         } else {
             "ref:na".to_string()
         };
-        format!("{} si:{} sb:{} {}", part1, short(fmt_wr_ints(&si)), sb, part2)
+        format!("{} si:{} sb:{} srt:{} {}", part1, short(fmt_wr_ints(&si)), sb, srt, part2)
     }
 }
 
@@ -958,6 +995,38 @@ struct Vm {
     stop: bool,
     /// registry the recycled builder must still know: (id, uuid words)
     want: Vec<(u16, Vec<i32>)>,
+    /// independent bookkeeping of what the builder holds, at the level of the public API (no type
+    /// numbers): UUID types registered in this builder chain, (type, id) pairs added since the last
+    /// recycle, raw item count and data words (registry items included)
+    known: std::collections::BTreeSet<String>,
+    added: std::collections::BTreeSet<(String, u16)>,
+    n_items: usize,
+    words: usize,
+    recycled: bool,
+}
+
+/// what `Builder::add_item` must answer according to the documented limits, and the bookkeeping
+/// update.  A new UUID type first costs its registry item (4 words).
+fn vm_expect_add(vm: &mut Vm, tid: &TypeId, id: u16, len: usize) -> &'static str {
+    let tkey = fmt_tid(tid);
+    if let TypeId::Uuid(_) = tid {
+        if !vm.known.contains(&tkey) {
+            let r = expected_add(vm.n_items, vm.words, false, 4);
+            if r != "ok" {
+                return r;
+            }
+            vm.known.insert(tkey.clone());
+            vm.n_items += 1;
+            vm.words += 4;
+        }
+    }
+    let r = expected_add(vm.n_items, vm.words, vm.added.contains(&(tkey.clone(), id)), len);
+    if r == "ok" {
+        vm.added.insert((tkey, id));
+        vm.n_items += 1;
+        vm.words += len;
+    }
+    r
 }
 
 fn parse_tid(k: &str, v: &str) -> Option<TypeId> {
@@ -1043,19 +1112,33 @@ fn vm_step(vm: &mut Vm, tok: &str, o: &mut Oracle) {
                 Some(b) => b,
                 None => return bad(vm),
             };
-            match catch(|| b.add_item(tid, id, &data)) {
+            let valid = match tid {
+                TypeId::Ordinal(x) => x > 0 && x < 0x4000,
+                _ => true,
+            };
+            let r = catch(|| b.add_item(tid, id, &data));
+            match r {
                 Err(msg) => {
-                    let valid = match tid {
-                        TypeId::Ordinal(x) => x > 0 && x < 0x4000,
-                        _ => true,
-                    };
                     if valid {
                         o.fail("C10/builder-panic", format!("add_item({}, {}) panics: {}", fmt_tid(&tid), id, msg));
                     }
                     vm.out.push("panic".to_string());
                     vm.stop = true;
                 }
-                Ok(r) => vm.out.push(fmt_add(&Ok(r))),
+                Ok(r) => {
+                    let got = fmt_add(&Ok(r));
+                    if valid {
+                        let recycled = vm.recycled;
+                        let want = vm_expect_add(vm, &tid, id, data.len());
+                        if got != want {
+                            o.fail(
+                                if recycled { "C10/recycle-then-add-fails" } else { "C10/builder-add-unexpected" },
+                                format!("add_item({}, {}, {} words) answers {} but the limits and the keys added so far say {}", fmt_tid(&tid), id, data.len(), got, want),
+                            );
+                        }
+                    }
+                    vm.out.push(got);
+                }
             }
         }
         ["fin"] => {
@@ -1116,8 +1199,8 @@ fn vm_step(vm: &mut Vm, tok: &str, o: &mut Oracle) {
                             o.fail("C10/roundtrip-warns", format!("{}: {}", name, fmt_ws(ws)));
                         }
                     }
-                    Rs::Err(e) => o.fail("C10/roundtrip-differs", format!("{}: error {:?}", name, e)),
-                    Rs::Panic => o.fail("C10/roundtrip-differs", format!("{}: panic", name)),
+                    Rs::Err(e) => o.fail("C10/roundtrip-rejected", format!("{}: a snapshot the builder accepted is refused with {:?}", name, e)),
+                    Rs::Panic => o.fail("C10/roundtrip-rejected", format!("{}: panic", name)),
                 }
             }
             // recycled builder still knows its UUID types
@@ -1161,6 +1244,10 @@ fn vm_step(vm: &mut Vm, tok: &str, o: &mut Oracle) {
                     vm.b = Some(b);
                     vm.prev = direct;
                     vm.cur = vec![];
+                    vm.added.clear();
+                    vm.n_items = vm.known.len();
+                    vm.words = 4 * vm.known.len();
+                    vm.recycled = true;
                     vm.out.push("rec:ok".to_string());
                 }
             }
@@ -1274,7 +1361,19 @@ impl Runner for R {
                 _ => "bad-op".to_string(),
             },
             ["build", rest @ ..] => {
-                let mut vm = Vm { b: Some(Builder::new()), prev: Snap::empty(), cur: vec![], out: vec![], stop: false, want: vec![] };
+                let mut vm = Vm {
+                    b: Some(Builder::new()),
+                    prev: Snap::empty(),
+                    cur: vec![],
+                    out: vec![],
+                    stop: false,
+                    want: vec![],
+                    known: Default::default(),
+                    added: Default::default(),
+                    n_items: 0,
+                    words: 0,
+                    recycled: false,
+                };
                 for tok in rest {
                     vm_step(&mut vm, tok, o);
                 }
@@ -1662,6 +1761,106 @@ fn gen_all(tier: &str, seed: u64, w: &mut dyn Write) {
             let b = gen_target(&mut rng, osz, &a, low_only, false);
             writeln!(w, "pair {} {} {}", name, fmt_items(&a), fmt_items(&b)).unwrap();
             writeln!(w, "pair {} {} {}", name, fmt_items(&b), fmt_items(&a)).unwrap();
+        }
+
+        // exact limit snapshots, written and read back (raw level): 1023 / 1024 items, 65532 / 65536 bytes
+        for &(n_items, total) in &[(1023usize, 0usize), (1024, 0), (1024, 16384 - 2 - 2048), (1023, 16384 - 2 - 2046 - 1), (1, 16384 - 2 - 2), (1, 16384 - 2 - 2 - 1), (3, 16384 - 2 - 6)] {
+            let a = gen_big_items(&mut rng, n_items, total, false);
+            writeln!(w, "pair none {} {}", fmt_items(&a), fmt_items(&a)).unwrap();
+        }
+
+        // 3a. UUID types registered in descending / shuffled UUID order, interleaved with ordinals;
+        //     direct + wire + delta copies, recycle of a copy, then a fresh UUID type and every
+        //     known one again (twice): the numbering after recycle must not collide
+        let n = if thorough { 400 } else { 40 };
+        for r in 0..n {
+            let m = 2 + rng.below(4) as usize;
+            // distinct first bytes give a known UUID order
+            let mut firsts: Vec<u8> = vec![0xf0, 0xc0, 0x90, 0x60, 0x30, 0x08];
+            firsts.truncate(m);
+            match r % 3 {
+                0 => {} // descending
+                1 => firsts.reverse(),
+                _ => {
+                    for i in (1..firsts.len()).rev() {
+                        let j = rng.below(i as u64 + 1) as usize;
+                        firsts.swap(i, j);
+                    }
+                }
+            }
+            let uu = |first: u8, salt: u8| -> String {
+                let mut b = [0x11u8; 16];
+                b[0] = first;
+                b[15] = salt;
+                to_hex(&b)
+            };
+            let mut toks: Vec<String> = vec![];
+            let mut qs: Vec<String> = vec![];
+            for (i, f) in firsts.iter().enumerate() {
+                if rng.chance(1, 2) {
+                    toks.push(format!("o.{}.{}.{}", 1 + rng.below(20), i, gen_val(&mut rng)));
+                }
+                toks.push(format!("u.{}.{}.{}", uu(*f, 0), i, fmt_ints(&[gen_val(&mut rng), i as i32])));
+                qs.push(format!("q.u.{}.{}", uu(*f, 0), i));
+            }
+            toks.push("fin".to_string());
+            toks.extend(qs.iter().cloned());
+            for round in 0..2u8 {
+                toks.push(format!("rec.{}", *rng.pick(&["d", "b", "i", "x"])));
+                // a fresh type whose UUID sorts before / between / after the known ones
+                let fresh_first = *rng.pick(&[0x00u8, 0x50, 0xa0, 0xff]);
+                toks.push(format!("u.{}.{}.{}", uu(fresh_first, 1 + round), 100 + round as u16, gen_val(&mut rng)));
+                qs.push(format!("q.u.{}.{}", uu(fresh_first, 1 + round), 100 + round as u16));
+                for (i, f) in firsts.iter().enumerate() {
+                    toks.push(format!("u.{}.{}.{}", uu(*f, 0), i, fmt_ints(&[gen_val(&mut rng), 7])));
+                }
+                if rng.chance(1, 2) {
+                    toks.push(format!("o.{}.{}.{}", 1 + rng.below(20), 50, gen_val(&mut rng)));
+                }
+                toks.push("fin".to_string());
+                toks.extend(qs.iter().cloned());
+            }
+            writeln!(w, "build {}", toks.join(" ")).unwrap();
+        }
+        // 3b. builder snapshots of exactly 1023 / 1024 raw items (UUID registry items counted in) and
+        //     of exactly 65532 / 65536 bytes, with 0, 1 and several UUID types
+        for &total in &[1023usize, 1024] {
+            for &k in &[0usize, 1, 5] {
+                let mut toks: Vec<String> = vec![];
+                for j in 0..k {
+                    toks.push(format!("u.{:02x}{}.{}.-", 0xe0 - 0x20 * j, "22".repeat(15), j));
+                }
+                for i in 0..total - 2 * k {
+                    toks.push(format!("o.{}.{}.-", 7 + i / 65536, i % 65536));
+                }
+                toks.push("fin".to_string());
+                toks.push("q.o.7.0".to_string());
+                toks.push(format!("q.o.7.{}", total - 2 * k - 1));
+                if k > 0 {
+                    toks.push(format!("q.u.e0{}.0", "22".repeat(15)));
+                }
+                writeln!(w, "build {}", toks.join(" ")).unwrap();
+            }
+        }
+        for &bytes in &[65532usize, 65536] {
+            for &k in &[0usize, 1, 3] {
+                let n_items = 2 * k + 1;
+                let words = bytes / 4 - 2 - 2 * n_items - 4 * k;
+                let mut toks: Vec<String> = vec![];
+                for j in 0..k {
+                    toks.push(format!("u.{:02x}{}.{}.-", 0xe0 - 0x20 * j, "33".repeat(15), j));
+                }
+                let data: Vec<i32> = (0..words).map(|i| (i % 7) as i32 - 3).collect();
+                toks.push(format!("o.9.1.{}", fmt_ints(&data)));
+                toks.push("fin".to_string());
+                toks.push("q.o.9.1".to_string());
+                // one more empty item does not fit any more when the snapshot is full
+                toks.push("rec.i".to_string());
+                toks.push(format!("o.9.1.{}", fmt_ints(&data)));
+                toks.push("o.9.2.-".to_string());
+                toks.push("fin".to_string());
+                writeln!(w, "build {}", toks.join(" ")).unwrap();
+            }
         }
 
         // 3. builder op sequences
